@@ -38,3 +38,7 @@ Definition corr_stream (x : stream * list N * Z) : bool :=
 (* case = (str() of the raw pypdf value as a reader of the harness prints it, what the implementation put into the result) *)
 Definition corr_strip (x : str * str) : bool :=
   match strip_ids true (fst x) with Some r => str_eqb r (snd x) | None => false end.
+
+(* case = (members as the harness built them, with the oracles recorded from the real extractors;
+           sequence of result identities the implementation's read_archive yielded) *)
+Definition corr_archive (x : list (amember N) * list N) : bool := list_eqb N.eqb (archive_results (fst x)) (snd x).
